@@ -358,6 +358,7 @@ def evaluate(ctx, progs, nval, nrep):
         common.log("C09 %s: %.1fs" % (what, T[-1] - T[-2]))
     HARNESS_BIN = common.build_harness("taint")
     MODEL_BIN = common.build_model("taint")
+    REGION_BIN = common.build_model("ctlregion")
     lap("builds")
     lines = [c09gen.wire_line(p) for p in progs]
     impl = common.run_lines(HARNESS_BIN, [], lines, shards=common.NPROC, timeout=1500)
@@ -365,7 +366,7 @@ def evaluate(ctx, progs, nval, nrep):
         raise common.BuildError("harness taint: %d outputs for %d inputs" % (len(impl), len(lines)), "")
     lap("implementation on %d definitions" % len(lines))
     status = {}
-    ok_idx, model_in = [], []
+    ok_idx, model_in, region_in = [], [], []
     parsed = {}
     for i, out in enumerate(impl):
         head = out[1:out.index(" ")] if " " in out else out.strip("()")
@@ -379,10 +380,41 @@ def evaluate(ctx, progs, nval, nrep):
             real_b = [sec for sec in sx[3][1:] if sec[0] == "bset"]
             model_in.append(MODEL_MODE + " " + sexp.show(sx[1]) + (" " + sexp.show(sx[4]) if len(sx) > 4 else "")
                             + (" " + sexp.show(real_b[0]) if real_b else ""))
+            # region-cover engine: the graph, plus the REAL region table and the REAL tainted set
+            region_in.append(sexp.show(sx[1]) + " " + sexp.show(sx[2]) + (" " + sexp.show(real_b[0]) if real_b else ""))
     model = common.run_lines(MODEL_BIN, [], model_in, shards=common.NPROC, timeout=1500)
     if len(model) != len(model_in):
         raise common.BuildError("model taint: %d outputs for %d inputs" % (len(model), len(model_in)), "")
     lap("model")
+    region = common.run_lines(REGION_BIN, [], region_in, shards=common.NPROC, timeout=1500)
+    if len(region) != len(region_in):
+        raise common.BuildError("model ctlregion: %d outputs for %d inputs" % (len(region), len(region_in)), "")
+    lap("region-cover hypotheses")
+    # hypotheses of C09_noninterference_with_region_cover (idx, cover, self), of ..._with_implicit_flows (ctl) and
+    # `every block reaches an exit` (exit), per dumped graph; coverreal / selfreal: the same on the REAL table / tainted set
+    hyp = dict((k, {"evaluated": 0, "false": 0}) for k in REGION_FIELDS)
+    region_fail, exit_fail, region_bad_output = [], [], []
+    for i, ro in zip(ok_idx, region):
+        try:
+            rx = sexp.parse(ro)
+            vals = dict((e[0], e[1]) for e in rx[1:]) if rx[0] == "rc" else None
+        except Exception:
+            vals = None
+        if not vals:
+            region_bad_output.append({"source": progs[i]["source"], "output": ro[:120]})
+            continue
+        for k in REGION_FIELDS:
+            v = vals.get(k, "-")
+            if v in ("0", "1"):
+                hyp[k]["evaluated"] += 1
+                hyp[k]["false"] += v == "0"
+        bad = [k for k in ("idx", "cover", "self", "coverreal", "selfreal") if vals.get(k) == "0"]
+        if bad:
+            region_fail.append({"source": progs[i]["source"], "prog": strip(progs[i]), "false": bad, "values": vals,
+                                "real_regions": sorted(sexp.show(e) for e in parsed[i][2][1:])})
+        if vals.get("exit") == "0":
+            exit_fail.append({"source": progs[i]["source"], "prog": strip(progs[i]), "values": vals,
+                              "legitimate": never_terminates(progs[i])})       # informational only
     disagreements = []
     wf_fail = []
     ssa_fail = []
@@ -481,7 +513,25 @@ def evaluate(ctx, progs, nval, nrep):
             "claims": claims, "claim_kinds": kinds, "oracle_runs": oracle_runs, "programs_with_claims": len(jobs), "corpus_fail": corpus_fail, "wf_fail": wf_fail,
             "ssa_fail": ssa_fail, "sink_incons": sink_incons, "control_fail": control_fail,
             "ctl_fail": ctl_fail, "ctl_pairs": ctl_pairs, "unclassified": unclassified, "dfmax": dfmax,
+            "hyp": hyp, "region_fail": region_fail, "exit_fail": exit_fail, "region_bad_output": region_bad_output,
             "parsed": parsed, "impl": impl}
+
+
+# shapes on which the control-dependence specification was wrong before proof round 4 (no successor-free block): a run in
+# which the generator never produces them is a failure
+REQUIRED_SHAPES = ("trailing-loop", "branch-ends-in-loop")
+REGION_FIELDS = ("idx", "cover", "self", "ctl", "exit", "coverreal", "selfreal")
+
+
+def never_terminates(prog):
+    """Does the SOURCE have a loop whose condition is a non-zero literal (`while (1)`)? Recorded next to an `exit 0` verdict.
+    (It does not excuse one: the lifted graph of `while (1) {..}` keeps the edge out of the loop, exit = 1.)"""
+    for st in c09sem.all_stmts(prog["body"]):
+        if st[0] in ("while", "for"):
+            c = st[1] if st[0] == "while" else st[2]
+            if c[0] == "num" and c[1] != 0:
+                return True
+    return False
 
 
 def strip(prog):
@@ -502,11 +552,17 @@ def merge(acc, res, base, progs, keep_samples):
         for a, b in res[k].items():
             d[a] = d.get(a, 0) + b
     for k in ("disagreements", "failing", "unmapped", "corpus_fail", "wf_fail", "ssa_fail", "sink_incons", "control_fail",
-              "ctl_fail", "unclassified"):
+              "ctl_fail", "unclassified", "region_fail", "exit_fail", "region_bad_output"):
         acc.setdefault(k, []).extend(res[k][:50])
-    for k in ("ssa_fail", "sink_incons", "control_fail", "corpus_fail", "ctl_fail", "unclassified", "wf_fail"):
+    h = acc.setdefault("hyp", dict((k, {"evaluated": 0, "false": 0}) for k in REGION_FIELDS))
+    for k in REGION_FIELDS:
+        for q in ("evaluated", "false"):
+            h[k][q] += res["hyp"][k][q]
+    for k in ("ssa_fail", "sink_incons", "control_fail", "corpus_fail", "ctl_fail", "unclassified", "wf_fail",
+              "region_fail", "exit_fail", "region_bad_output"):
         acc["n_" + k] = acc.get("n_" + k, 0) + len(res[k])
     acc["dfmax"] = max(acc.get("dfmax", 0), res["dfmax"])
+    acc["n_exit_legit"] = acc.get("n_exit_legit", 0) + len([c for c in res["exit_fail"] if c["legitimate"]])
     acc["n_disagreements"] = acc.get("n_disagreements", 0) + len(res["disagreements"])
     acc["n_failing"] = acc.get("n_failing", 0) + len(res["failing"])
     sample = acc.setdefault("sample", [])
@@ -557,6 +613,17 @@ def finish(ctx, proofs, res, feats, alph, nval, nrep):
         ctx.violation("expectation: %s: %s" % (c["corpus"], c["problem"]),
                       {"input": c.get("source"), "prog": c.get("prog"), "impl": c["problem"],
                        "spec": "corpus expectation / sink probe: no claim about a value that reaches an effect"})
+    # hypotheses of C09_noninterference_with_region_cover unmet on a dumped graph: the definition is the failing input
+    for c in res["region_fail"][:3]:
+        ctx.violation("hypothesis of C09_noninterference_with_region_cover false on this definition: %s = 0 (idx = block indices distinct, "
+                      "cover = every block control dependent on a non-constant branch is in its region [Spec.CtlRegion.region_covers_b], "
+                      "self = the writes of a loop header that depends on itself are tainted [self_closed_b]; `real` = evaluated on the region "
+                      "table / tainted set the implementation computed, else on the mirror's) (%d definitions)"
+                      % (", ".join(c["false"]), res["n_region_fail"]),
+                      {"input": c["source"], "prog": c["prog"],
+                       "impl": {"get_true_branch/get_false_branch": c["real_regions"], "ctlregion": c["values"]},
+                       "spec": "Spec.CtlRegion: indices_distinct_b, region_covers_b, self_closed_b must be 1 on every dumped graph "
+                               "(control dependence in the post-dominance sense of Spec.CtlDep)"})
     # the names the REAL analysis finds tainted by an input/output signal are not closed under control dependence
     # (Spec.CtlDep): a branch region misses a block whose execution the branch decides. The program is the input.
     for c in res["ctl_fail"][:3]:
@@ -594,6 +661,22 @@ def finish(ctx, proofs, res, feats, alph, nval, nrep):
                           "run_side_effect_analysis on %d definitions (the real sink set changed)" % res["n_sink_incons"],
                           {"broken": "transcription of the sink set (side_effect_analysis.rs:254-339) vs the real CS0008 reports",
                            "first": res["sink_incons"][0]}, no_input=True)
+        elif res["region_bad_output"]:
+            ctx.violation("the region-cover engine (coq/extract/ctlregion) gave no verdict on %d dumped graphs; first: %s"
+                          % (res["n_region_bad_output"], res["region_bad_output"][0]["output"]),
+                          {"broken": "model driver ctlregion (hypotheses of C09_noninterference_with_region_cover not evaluated)",
+                           "first": res["region_bad_output"][0]}, no_input=True)
+        elif res["exit_fail"]:
+            # checked by hand (proof round 4 follow-up): even `while (1) {..}` keeps the edge out of the loop in the lifted graph
+            # (exit = 1), so no source shape makes this legitimately false; `source_has_a_constant_true_loop` is recorded for the reader
+            ctx.violation("Spec.CtlRegion.all_reach_exit_b is false on %d dumped graphs: a block cannot reach an exit (post-dominance is "
+                          "vacuous there)" % res["n_exit_fail"],
+                          {"broken": "hypothesis `every block reaches an exit` (all_reach_exit_b) of the control-dependence specification",
+                           "first": res["exit_fail"][0]}, no_input=True)
+        elif [f for f in REQUIRED_SHAPES if not feats.get(f)]:
+            ctx.violation("the generator never produced the shape(s) %s in this run" % [f for f in REQUIRED_SHAPES if not feats.get(f)],
+                          {"broken": "generator coverage (shapes the control-dependence specification was once wrong on)",
+                           "required": list(REQUIRED_SHAPES), "feature_histogram": feats}, no_input=True)
         elif res["unclassified"]:
             ctx.violation("%d reports of the side-effect pass could not be classified by code and location (kind `other`): nobody judges them; "
                           "first: %s" % (res["n_unclassified"], res["unclassified"][0]["finding"]),
@@ -639,6 +722,14 @@ def finish(ctx, proofs, res, feats, alph, nval, nrep):
         # behaviourally: sink_consistency on every definition, the sink probes, and the findings/sinks sections of the correspondence.
         "sink_code_digest_matches_transcription_informational": sink_code_digest() == SINK_CODE_SHA256,
         "reports_unclassified_kind_other": res["n_unclassified"],
+        # per dumped graph, by the model driver ctlregion: idx / cover / self = hypotheses of C09_noninterference_with_region_cover
+        # (mirror's table and tainted set), ctl = hypothesis of ..._with_implicit_flows, exit = every block reaches an exit,
+        # coverreal / selfreal = cover / self on the REAL region table / tainted set
+        "hypotheses_evaluated": res["hyp"],
+        "hypothesis_region_cover_false_on": res["n_region_fail"],
+        "graphs_with_a_block_that_reaches_no_exit": {"count": res["n_exit_fail"],
+                                                     "of_which_source_has_a_constant_true_loop": res["n_exit_legit"]},
+        "required_shapes_produced": dict((f, feats.get(f, 0)) for f in REQUIRED_SHAPES),
         "hypothesis_ctl_closed_false_on": res["n_ctl_fail"],
         "hypothesis_ctl_closed_evaluated_on": res["ok"],
         "control_dependent_block_pairs_evaluated": res["ctl_pairs"],
@@ -658,14 +749,19 @@ OPEN_STATEMENTS = [
     "about executions of the SSA cfg; the source-level oracle covers the gap by search (this is how D20 was visible). What IS "
     "checked inside C09: every dumped graph passes the verified validator SsaCheck.ssa_check (C14's theorems then apply to it)",
     "`ment_sound` / `ment_sound_by` is a hypothesis; that the exact predicate (`ment s = true <-> mentions_by g dep s`) is decidable is not proved",
-    "that the mirror of get_true_branch / get_false_branch (Model.BranchRegion.branches_of) makes the tainted set closed under control "
-    "dependence on EVERY graph (`forall g, ctl_closed_b g (exported_sinks g (taint (branches_of g))) = true`) is not proved (it needs the "
-    "structure of lifted graphs: loop headers are control dependent on themselves and are covered only through the phi data edges); "
-    "the closure is evaluated per dumped graph instead (hypothesis of C09_noninterference_with_implicit_flows, on the mirror's and on the "
-    "real tainted set) and an unmet hypothesis is a violation with the definition as failing input",
-    "Model.BranchRegion: no theorem yet that its closure loops never run out of fuel on closed graphs, nor that get_interval equals the "
-    "path-based interval (both follow from Proofs.TaintProofs.closure_exact_refl / fuel_suffices_refl, not instantiated); the mirror is "
-    "tied to cfg.rs by the comparison of every region of every dumped graph (section `branches`)",
+    "that the mirror of get_true_branch / get_false_branch (Model.BranchRegion.branches_of) COVERS control dependence on every graph "
+    "the lifting produces (Proofs.CtlRegionLifted.C09_lifted_regions_cover_full_statement: `lift body = Ok sg -> g has the edges of sg -> "
+    "branches_of g = Ok br -> region_covers g br`) is not proved; missing is one structural lemma about Model.Lift.visit (the blocks of "
+    "the true and of the false branch are two index intervals entered through the branch block only and left towards one block), "
+    "stated at the end of that file. PROVED in proof round 4: for ALL graphs and ALL tables `region_covers g br /\\ self_closed g es -> "
+    "ctl_closed g es` (C09_regions_give_ctl_closed; self_closed = the pairs (b, b): the phis of a loop header, which is not in its own "
+    "region), the decidable forms, the fuel/exactness of every loop of Model.BranchRegion, existence of the table and exactness of the "
+    "frontier lists on lifted graphs. EVALUATED per dumped graph (quick and thorough) by the model driver `ctlregion` "
+    "(coq/extract/ctlregion.{v,ml}), run next to the taint model: indices_distinct_b / region_covers_b / self_closed_b (the hypotheses of "
+    "C09_noninterference_with_region_cover) on the mirror's region table and tainted set AND on the REAL table and tainted set "
+    "(`coverreal`, `selfreal`), ctl_closed_b, all_reach_exit_b; counts in evidence `hypotheses_evaluated`; idx / cover / self = 0 is a "
+    "violation with the definition as failing input, exit = 0 an unmet hypothesis (no_input; not legitimately possible: `while (1)` "
+    "keeps its exit edge in the lifted graph)",
 ]
 ASSUMPTIONS = [
     "get_true_branch / get_false_branch / get_interval are MIRRORED (Model.BranchRegion over Model.Dom's dominance frontier) since the "
